@@ -18,7 +18,7 @@ for d in sorted(os.listdir(os.path.join(VERIF, "seeded"))):
     others = [p for p in m.get("caught_by", []) if p != m["property"]]
     rows.append("| %s | %s | %s | %s | %s |" % (d, notes, "**yes**" if m["property"] in m.get("caught_by", []) else "NO", cls, ", ".join(others) or "–"))
 text = []
-text.append("540 changes were written in nine rounds by independent sub-agents, each given only the text of one property and a")
+text.append("580 changes were written in ten rounds by independent sub-agents, each given only the text of one property and a")
 text.append("scratch worktree of /repo (nothing from /verif).  Round 1 asked for three subtle test-surviving changes per property; round 2 for")
 text.append("one change each of the styles *state across calls*, *rare argument / class / option*, *cooperating sites or failure path*; round 3 for")
 text.append("*one copy / one class only*, *feature interaction* and *sneakiest*; round 4 for *indirect* (anchor files untouched), *data dependent*")
@@ -27,7 +27,7 @@ text.append("optimisation* and a *robustness / compatibility fix*; round 6 for *
 text.append("non-equivalent rewrite) and *wildcard*; round 7 for a *feature addition* whose plumbing changes existing calls, a *bug-fix regression*")
 text.append("(an invented report fixed in a hurry) and an *indirect / cross-module* change (shared helper or two harmless-alone edits); round 8 for")
 text.append("*scalar arguments: boundary and type*, *error path only* and *laziness, aliasing and timing*; round 9 for *hardening / sanitising*,")
-text.append("*diagnostics* (logging, richer messages, eager repr) and *resources and process-wide state*.")
+text.append("*diagnostics* (logging, richer messages, eager repr) and *resources and process-wide state*; round 10 (two per property) for *scale dependent* and *subclass / protocol interplay*.")
 text.append("A change is kept under `seeded/<id>/` only after `tools/seed_eval.py` confirmed in a fresh scratch worktree")
 text.append("that the patch applies, the 160 baseline tests still pass and the demonstration exits 1 with / 0 without the change; then the")
 text.append("property's quick check (and related ones) is run with `--repo <worktree>`.")
@@ -40,7 +40,7 @@ text.append("re-used objects, restricted re-entrant hooks, deep spines, falsy co
 text.append("unhashable / NaN / tuple values, exporter / resolver / RenderTree / predicate objects re-used across changes and aborted calls,")
 text.append("library spins and unexpected exceptions as witnesses, observer-effect-free calls on fresh nodes, recording hooks that chain to")
 text.append("hooks defined by library classes, histories that report a forest left inconsistent; rounds 6-8: sections 9.4c - 9.4e).  The table shows the state after them:")
-text.append("532 of 540 are caught by the check of their own property.  Deliberately not covered, because what they need lies outside the property")
+text.append("566 of 580 are caught by the check of their own property (round 10: 20 of 40 at first, 33 of 40 after the additions of section 9.4g, which also explains its 7 misses).  Deliberately not covered, because what they need lies outside the property")
 text.append("statements: `C06-m6` (an iterator object re-used after its `stop` callback raised on the very first `next()`), `C06-m22` and `C13-m22`")
 text.append("(a *float* `maxlevel` such as `2.0`; the documented type is int - int subclasses such as bool / IntEnum-like values are covered),")
 text.append("`C05-m24` (the consumer attaches children to the node it has just received, i.e. the tree changes *during* one iteration) and `C04-m23`")
